@@ -134,3 +134,65 @@ func VerifC04_Removal() {
 	}
 	verif.Assert("handles_balanced", lfs.opens == lfs.closes)
 }
+
+// VerifC04_FaultyRemoval: the backend refuses one removal (permission, busy
+// file, I/O fault) at any position: the call must not report success while
+// entries remain, and still touches nothing outside the tree.
+func VerifC04_FaultyRemoval() {
+	lfs := newLinkFs()
+	_ = lfs.MkdirAll("/s/o", 0o755)
+	f, _ := lfs.Create("/s/o/y")
+	_ = f.Close()
+	_ = lfs.MkdirAll("/s/t/d", 0o755)
+	for _, p := range []string{"/s/t/a", "/s/t/b", "/s/t/c", "/s/t/d/x", "/s/t/d/y"} {
+		if verif.Bool("present") {
+			f, _ := lfs.Create(p)
+			_, _ = f.WriteString("in")
+			_ = f.Close()
+		}
+	}
+	lfs.reset()
+	fs := NewVirtualFileSystem(lfs, InMemoryFS, IdentityPathConverterFunc)
+	before := vOutsideOf(lfs.snapshot())
+	faultAt := verif.Len("faultAtRemoval", 1, 7) // the k-th Remove issued by the call fails
+	removals := 0
+	faulted := false
+	lfs.before = func(op *vOp) error {
+		if op.name == "Remove" || op.name == "RemoveAll" {
+			removals++
+			if removals == faultAt {
+				faulted = true
+				return pathErr("remove", op.path, 13) // EACCES
+			}
+		}
+		return nil
+	}
+	ctx := context.Background()
+	op := verif.Choice("op", 3)
+	var err error
+	switch op {
+	case 0:
+		err = fs.Rm("/s/t")
+	case 1:
+		err = fs.RemoveWithContext(ctx, "/s/t")
+	case 2:
+		err = fs.CleanDirWithContext(ctx, "/s/t")
+	}
+	lfs.before = nil
+	after := lfs.snapshot()
+	verif.Assert("nothing_outside_the_tree_is_touched", vSameEntries(before, vOutsideOf(after)))
+	left := 0
+	for _, e := range after {
+		if vPathInside("/s/t", e.path) && e.path != "/s/t" {
+			left++
+		}
+	}
+	rootLeft := lfs.nodes["/s/t"] != nil
+	if err == nil {
+		verif.Assert("success_means_the_tree_is_gone", left == 0 && (op == 2 || !rootLeft))
+	}
+	if faulted {
+		verif.Reach("fault_injected")
+	}
+	verif.Assert("handles_balanced", lfs.opens == lfs.closes)
+}
